@@ -101,6 +101,8 @@ pub type Thin = ThinArc<LP, u32>;
 
 #[derive(Clone, Copy, Debug, PartialEq, Eq, Hash, PartialOrd, Ord)]
 pub enum Kind {
+    /// no handle of its own: a reference to the main thread's Arc (the count stays 1 until it clones)
+    B,
     A,
     O,
     U1,
@@ -109,6 +111,7 @@ pub enum Kind {
     F,
 }
 pub enum LH {
+    B(*const Arc<LP>),
     A(Arc<LP>),
     O(OffsetArc<LP>),
     U1(ArcUnion<LP, LQ>),
@@ -122,6 +125,7 @@ unsafe impl Send for LH {}
 impl LH {
     pub fn kind(&self) -> Kind {
         match self {
+            LH::B(_) => Kind::B,
             LH::A(_) => Kind::A,
             LH::O(_) => Kind::O,
             LH::U1(_) => Kind::U1,
@@ -132,6 +136,7 @@ impl LH {
     }
     fn read(&self) -> (bool, u32) {
         match self {
+            LH::B(p) => unsafe { (**p).read() },
             LH::A(x) => x.read(),
             LH::O(x) => x.read(),
             LH::U1(x) => match x.borrow() {
@@ -166,6 +171,7 @@ impl LH {
     }
     fn clone_same(&self) -> LH {
         match self {
+            LH::B(p) => LH::A(unsafe { (**p).clone() }),
             LH::A(x) => LH::A(x.clone()),
             LH::O(x) => LH::O(x.clone()),
             LH::U1(x) => LH::U1(x.clone()),
@@ -177,6 +183,7 @@ impl LH {
     /// clone through a borrow path, yielding a plain (fat) Arc
     fn clone_arc(&self) -> LH {
         match self {
+            LH::B(p) => LH::A(unsafe { (**p).borrow_arc().clone_arc() }),
             LH::A(x) => LH::A(x.borrow_arc().clone_arc()),
             LH::O(x) => LH::A(x.clone_arc()),
             LH::U1(x) => LH::A(x.as_first().expect("variant").clone_arc()),
@@ -188,6 +195,7 @@ impl LH {
     /// count-neutral conversion to the partner representation
     fn convert(self) -> LH {
         match self {
+            LH::B(p) => LH::B(p),
             LH::A(x) => LH::O(Arc::into_raw_offset(x)),
             LH::O(x) => LH::A(Arc::from_raw_offset(x)),
             LH::U1(x) => LH::U1(x),
@@ -223,7 +231,7 @@ pub fn op_valid(op: TOp, hs: &[Kind]) -> bool {
     use TOp::*;
     match op {
         Read | Clone | CloneArc | Drop | DropFirst => true,
-        Convert => !matches!(k0, Kind::U1 | Kind::U2),
+        Convert => !matches!(k0, Kind::U1 | Kind::U2 | Kind::B),
         GetMutW | GetUniqueW | TryUniqueW | IsUniqueGetMutW | TryUniqueInner => matches!(k0, Kind::A | Kind::F),
         WithArcMutW => k0 == Kind::T,
         MakeMutW => matches!(k0, Kind::A | Kind::O),
@@ -234,7 +242,7 @@ pub fn op_valid(op: TOp, hs: &[Kind]) -> bool {
 pub fn op_effect(op: TOp, hs: &mut Vec<Kind>) {
     use TOp::*;
     match op {
-        Clone => hs.push(hs[0]),
+        Clone => hs.push(if hs[0] == Kind::B { Kind::A } else { hs[0] }),
         CloneArc => hs.push(match hs[0] {
             Kind::T => Kind::F,
             Kind::F => Kind::T,
@@ -497,6 +505,23 @@ pub fn setup(kinds: &[Kind]) -> (LH, Vec<LH>, u32, usize) {
         let id = base.id;
         let block = base.heap_ptr() as usize;
         let _ = Arc::count(&base);
+        if kinds.contains(&Kind::B) {
+            // the threads work through a reference to this one handle, which stays where it is
+            // (boxed) until they have been joined
+            let basep: *const Arc<LP> = suspend(|| Box::into_raw(Box::new(base)));
+            let hs = kinds
+                .iter()
+                .map(|k| {
+                    cap(|| match k {
+                        Kind::B => LH::B(basep),
+                        Kind::A => LH::A(unsafe { (*basep).clone() }),
+                        Kind::O => LH::O(Arc::into_raw_offset(unsafe { (*basep).clone() })),
+                        _ => unreachable!(),
+                    })
+                })
+                .collect();
+            return (LH::B(basep), hs, id, block);
+        }
         let hs = kinds
             .iter()
             .map(|k| {
